@@ -164,6 +164,22 @@ func vfC06(w *vfWorld) {
 	headerSafe := func(s string) bool {
 		return !strings.ContainsAny(s, "\r\n\x00") && strings.TrimSpace(s) == s && s != ""
 	}
+	// plain same-site targets with characters that matter to naive parsers (the state is "nonce:redirect")
+	strs = append(strs, "/calendar?from=09:30&to=17:45", "/wiki/Talk:Main_Page", "/a:b/c.d?e=f:g", "/v1.2/items?id=urn:x:1")
+	// a target that is definitely not allowed (it resolves off-site and is not whitelisted) must be REPLACED BY "/" on the
+	// proxy's own endpoints - not by anything else, in particular not by the endpoint's own URI
+	mustBeRoot := func(channel, s, loc string) {
+		o := vfResolve(s, cfg.Scheme, vfAppHost, "")
+		if o.Fail || o.Opaque || (o.Scheme != "http" && o.Scheme != "https") || (o.Host == vfAppHost && o.Port == "") {
+			return
+		}
+		if ok, either := vfWhitelistAllows(o, cfg.Whitelist); ok || either {
+			return
+		}
+		if loc != "/" {
+			w.violate("C06", "rejected-target-not-replaced-by-root", channel, "%s: input %q resolves off-site (%s://%s) and is not whitelisted; it must be replaced by \"/\" but the redirect went to %q", channel, s, o.Scheme, o.Host, loc)
+		}
+	}
 	// ---- cheap channels: every string of the chunk ----
 	for _, s := range strs {
 		q := url.QueryEscape(s)
@@ -171,6 +187,7 @@ func vfC06(w *vfWorld) {
 		if r.ParseErr == nil {
 			if r.Status == 302 {
 				judge("sign_out?rd", s, r.Location())
+				mustBeRoot("sign_out?rd", s, r.Location())
 			} else {
 				judgePage("sign_out?rd", s, r)
 			}
@@ -179,6 +196,14 @@ func vfC06(w *vfWorld) {
 			r := cl.Do(rep, &vfReq{Method: "GET", Target: pp + "/sign_out", NoJar: true, Headers: [][2]string{{"X-Auth-Request-Redirect", s}}})
 			if r.ParseErr == nil && r.Status == 302 {
 				judge("sign_out:X-Auth-Request-Redirect", s, r.Location())
+				mustBeRoot("sign_out:X-Auth-Request-Redirect", s, r.Location())
+			}
+			if cfg.ReverseProxy {
+				r := cl.Do(rep, &vfReq{Method: "GET", Target: pp + "/sign_out", NoJar: true, Headers: [][2]string{{"X-Forwarded-Uri", s}}})
+				if r.ParseErr == nil && r.Status == 302 {
+					judge("sign_out:X-Forwarded-Uri", s, r.Location())
+					mustBeRoot("sign_out:X-Forwarded-Uri", s, r.Location())
+				}
 			}
 		}
 	}
@@ -222,6 +247,9 @@ func vfC06(w *vfWorld) {
 				continue
 			}
 			cb := b.GET(rep, lg.CallbackTarget(pp))
+			if vfC06Plain(s) && cb.Status != 302 {
+				w.violate("C06", "plain-target-not-preserved", "start?rd/login-failed", "the login that was started for the plain same-site target %q ended with status %d at the callback", s, cb.Status)
+			}
 			if cb.Status == 302 {
 				judge("start?rd->callback", s, cb.Location())
 				// a plain same-site path and query is where the user lands, byte for byte
@@ -299,7 +327,7 @@ func vfC06Start(w *vfWorld, cfg *vfCfg, channel, s string, r *vfResp) {
 	}
 }
 
-var vfC06PlainRe = regexp.MustCompile(`^(/[A-Za-z0-9_~-]+)+(\?[A-Za-z0-9_=&~-]*)?$`)
+var vfC06PlainRe = regexp.MustCompile(`^(/[A-Za-z0-9_~-][A-Za-z0-9_~:.-]*)+(\?[A-Za-z0-9_=&~:.-]*)?$`)
 
 // vfC06Plain: single leading "/", non-empty unreserved path segments, plain query.
 func vfC06Plain(s string) bool { return vfC06PlainRe.MatchString(s) }
